@@ -565,7 +565,7 @@ pub enum Outcome {
     /// published values, in order
     Ok(Vec<Val>),
     Fail { at: usize, kind: &'static str },
-    Ill { at: usize, why: String, arity: bool },
+    Ill { at: usize, why: String, arity: bool, stat: bool },
 }
 
 impl Outcome {
@@ -584,21 +584,115 @@ impl Outcome {
     }
 }
 
+fn kind_eq(a: &IrType, b: &IrType) -> bool {
+    ty_name(a) == ty_name(b)
+}
+
+/// Static result types of an operation applied to operand types (BigUint widths are not tracked:
+/// every BigUint is `BigUint(0)` here). `Err` = the documentation excludes this use.
+pub fn type_op(op: &Operation, t: &[IrType]) -> Result<Vec<IrType>, String> {
+    use IrType::*;
+    use Operation::*;
+    let bad = || Err(format!("{} unsupported on {:?}", op_name(op), t));
+    let big = BigUint(0);
+    Ok(match (op, t) {
+        (AssertEqual | AssertNotEqual, [a, b]) | (IsEqual, [a, b]) => {
+            let ok = match (a, b) {
+                (Bytes(x), Bytes(y)) => x == y,
+                (JubjubScalar, _) | (_, JubjubScalar) => false,
+                (a, b) => kind_eq(a, b),
+            };
+            if !ok {
+                return bad();
+            }
+            if matches!(op, IsEqual) {
+                vec![Bool]
+            } else {
+                vec![]
+            }
+        }
+        (Add | Sub, [Native, Native]) | (Mul, [Native, Native]) | (Neg, [Native]) => vec![Native],
+        (Add | Sub | Mul, [BigUint(_), BigUint(_)]) | (ModExp(_), [BigUint(_), BigUint(_)]) => vec![big],
+        (Add | Sub, [JubjubPoint, JubjubPoint]) | (Mul, [JubjubScalar, JubjubPoint]) | (Neg, [JubjubPoint]) => vec![JubjubPoint],
+        (InnerProduct, v) if !v.is_empty() && v.len() % 2 == 0 => {
+            let (a, b) = v.split_at(v.len() / 2);
+            if a.iter().chain(b).all(|x| matches!(x, Native)) {
+                vec![Native]
+            } else if a.iter().chain(b).all(|x| matches!(x, BigUint(_))) {
+                vec![big]
+            } else if a.iter().all(|x| matches!(x, JubjubScalar)) && b.iter().all(|x| matches!(x, JubjubPoint)) {
+                vec![JubjubPoint]
+            } else {
+                return bad();
+            }
+        }
+        (AffineCoordinates, [JubjubPoint]) => vec![Native, Native],
+        (IntoBytes(n), [Native]) | (IntoBytes(n), [BigUint(_)]) => vec![Bytes(*n)],
+        (IntoBytes(32), [JubjubPoint]) => vec![Bytes(32)],
+        (FromBytes(Native), [Bytes(_)]) => vec![Native],
+        (FromBytes(BigUint(n)), [Bytes(l)]) if *n as usize >= 8 * l => vec![big],
+        (FromBytes(JubjubPoint), [Bytes(32)]) => vec![JubjubPoint],
+        (FromBytes(JubjubScalar), [Bytes(_)]) => vec![JubjubScalar],
+        (Poseidon, v) if !v.is_empty() && v.iter().all(|x| matches!(x, Native)) => vec![Native],
+        (Sha256, [Bytes(_)]) => vec![Bytes(32)],
+        (Sha512, [Bytes(_)]) => vec![Bytes(64)],
+        _ => return bad(),
+    })
+}
+
+/// Whole-program static check (names, duplicates, types), independent of the witness.
+/// Returns the type environment reached and the first problem.
+pub fn static_check(prog: &Prog) -> (HashMap<String, IrType>, Option<(usize, String)>) {
+    let mut env: HashMap<String, IrType> = HashMap::new();
+    for (i, ins) in prog.iter().enumerate() {
+        let mut tys = vec![];
+        for name in &ins.inputs {
+            match env.get(name).copied().or_else(|| parse_const(name).map(|v| v.ty())) {
+                Some(t) => tys.push(t),
+                None => return (env, Some((i, format!("name {name} not found")))),
+            }
+        }
+        let outs = match &ins.operation {
+            Operation::Load(t) => vec![*t; ins.outputs.len()],
+            Operation::Publish => vec![],
+            op => match type_op(op, &tys) {
+                Ok(o) => o,
+                Err(why) => return (env, Some((i, why))),
+            },
+        };
+        for (name, t) in ins.outputs.iter().zip(outs) {
+            if env.insert(name.clone(), t).is_some() {
+                return (env, Some((i, format!("duplicate name {name}"))));
+            }
+        }
+    }
+    (env, None)
+}
+
 /// Reference execution; also returns the value memory reached (for steering / signatures).
 pub fn reference(prog: &Prog, wit: &Wit) -> (Outcome, HashMap<String, Val>) {
     let mut mem: HashMap<String, Val> = HashMap::new();
     for (i, ins) in prog.iter().enumerate() {
         if !arity_ok(ins) {
-            return (Outcome::Ill { at: i, why: "arity".into(), arity: true }, mem);
+            return (Outcome::Ill { at: i, why: "arity".into(), arity: true, stat: true }, mem);
         }
     }
+    let (dynamic, mem) = reference_dynamic(prog, wit);
+    if let (_, Some((at, why))) = static_check(prog) {
+        return (Outcome::Ill { at, why, arity: false, stat: true }, mem);
+    }
+    (dynamic, mem)
+}
+
+fn reference_dynamic(prog: &Prog, wit: &Wit) -> (Outcome, HashMap<String, Val>) {
+    let mut mem: HashMap<String, Val> = HashMap::new();
     let mut published = vec![];
     for (i, ins) in prog.iter().enumerate() {
         let mut inp = vec![];
         for name in &ins.inputs {
             match mem.get(name).cloned().or_else(|| parse_const(name)) {
                 Some(v) => inp.push(v),
-                None => return (Outcome::Ill { at: i, why: format!("name {name} not found"), arity: false }, mem),
+                None => return (Outcome::Ill { at: i, why: format!("name {name} not found"), arity: false, stat: false }, mem),
             }
         }
         let outs = match &ins.operation {
@@ -606,9 +700,9 @@ pub fn reference(prog: &Prog, wit: &Wit) -> (Outcome, HashMap<String, Val>) {
                 let mut outs = vec![];
                 for name in &ins.outputs {
                     match wit.get(name) {
-                        None => return (Outcome::Ill { at: i, why: format!("witness {name} missing"), arity: false }, mem),
+                        None => return (Outcome::Ill { at: i, why: format!("witness {name} missing"), arity: false, stat: false }, mem),
                         Some(v) if !witness_fits(v, t) => {
-                            return (Outcome::Ill { at: i, why: format!("witness {name} has type {:?}, declared {t:?}", v.ty()), arity: false }, mem)
+                            return (Outcome::Ill { at: i, why: format!("witness {name} has type {:?}, declared {t:?}", v.ty()), arity: false, stat: false }, mem)
                         }
                         Some(v) => outs.push(v.clone()),
                     }
@@ -622,12 +716,12 @@ pub fn reference(prog: &Prog, wit: &Wit) -> (Outcome, HashMap<String, Val>) {
             op => match eval_op(op, &inp) {
                 Ev::Ok(v) => v,
                 Ev::Fail(kind) => return (Outcome::Fail { at: i, kind }, mem),
-                Ev::Ill(why) => return (Outcome::Ill { at: i, why, arity: false }, mem),
+                Ev::Ill(why) => return (Outcome::Ill { at: i, why, arity: false, stat: false }, mem),
             },
         };
         for (name, v) in ins.outputs.iter().zip(outs) {
             if mem.insert(name.clone(), v).is_some() {
-                return (Outcome::Ill { at: i, why: format!("duplicate name {name}"), arity: false }, mem);
+                return (Outcome::Ill { at: i, why: format!("duplicate name {name}"), arity: false, stat: false }, mem);
             }
         }
     }
